@@ -173,7 +173,7 @@ def build():
                              ' result@ == unpack_upto(%s, %s, %s, %s, old(result)@, symbol@, symbol_index as int, sub_block as nat),'
                              % (T, AL, N, KK, KK, T, T, AL, N, T, AL, N, T, AL, N, N, T, KK, T, AL, N, KK, T, AL, N, T, AL, N, KK)),
                     'body_top': 'proof { lemma_layout(%s, %s, %s, sub_block as int); }' % (T, AL, N)}},
-         opt_inserts=[('let start = sub_block_offset + bytes * symbol_index;', 'before',
+         hint_inserts=[('let start = sub_block_offset + bytes * symbol_index;', 'before',
                        ('proof { let so = sym_off(%s, %s, %s, sub_block as int); let by = sub_bytes(%s, %s, %s, sub_block as int); let so1 = sym_off(%s, %s, %s, sub_block as int + 1); let kk = %s; let ix = symbol_index as int;'
                         ' assert(bytes as int == by);'
                         ' assert(by * ix >= 0 && by * ix + by <= by * kk) by (nonlinear_arith) requires 0 <= ix < kk, by >= 0;'
